@@ -28,7 +28,7 @@ COMPONENTS = {"real": ["reb_simulation_copy, reb_simulation_diff, reb_binary_dif
 ASSUMPTIONS = ["callbacks are re-attached to the copy before equality is asserted (the function-pointer flag is persisted)",
                "a mutation counts only if it is sticky (the serialiser recomputes some caches); array-sizing fields are only mutated downwards"]
 PROBES = ["with_variational", "with_megno", "unsynchronized_state", "with_tree", "with_display_settings", "mutations_sticky", "mutations_not_sticky",
-          "walltime_mutations_ignored", "pointer_mutations_ignored", "freed_copy_then_stepped_source", "tree_of_copy_checked", "live_arrays_compared", "copy_on_differently_filled_heap", "compact_system_merged_before_copy"]
+          "walltime_mutations_ignored", "pointer_mutations_ignored", "freed_copy_then_stepped_source", "tree_of_copy_checked", "live_arrays_compared", "copy_on_differently_filled_heap", "compact_system_merged_before_copy", "source_has_automatic_archive"]
 
 # dtype codes of reb_binary_field_descriptor
 DT = dict(DOUBLE=0, INT=1, UINT=2, UINT32=3, INT64=4, UINT64=5, VEC3D=7, PARTICLE=8, POINTER=9, POINTER_ALIGNED=10, DP7=11, OTHER=12, END=13, PARTICLE4=15, POINTER_FIXED=16)
@@ -55,13 +55,16 @@ def generate(rng, tier, index):
     o = rng.derive("ops")
     warm = []
     for i in range(o.randint(0, 4)):
-        k = o.weighted([("steps", 6), ("integrate", 2), ("display_settings", 1), ("sync", 1), ("move", 1)])
+        k = o.weighted([("steps", 6), ("integrate", 2), ("display_settings", 1), ("sync", 1), ("move", 1), ("arm_archive", 1)])
         if k == "steps":
             warm.append(dict(op="steps", n=o.randint(1, 20)))
         elif k == "integrate":
             warm.append(dict(op="integrate", span=abs(cfg["dt"]) * o.choice([0.5, 3.3, 7.0]), exact=o.choice([None, 0, 1])))
         elif k == "move":
             warm.append(dict(op="move", pick=o.randint(0, 50), dx=1e-4, dvy=1e-4, fm=1.0))
+        elif k == "arm_archive":
+            # an automatic Simulationarchive is attached to the source: the schedule is persisted state, the file name is not
+            warm.append(dict(op="arm_archive", kind=o.choice(["interval", "step", "walltime"]), value=o.choice([1, 2, 5])))
         else:
             warm.append(dict(op=k))
     s = rng.derive("script")
@@ -103,6 +106,12 @@ def execute(case, ctx):
         for i, op in enumerate(case["ops"]):
             ctx.op(i)
             try:
+                if op["op"] == "arm_archive":
+                    ap = os.path.join(ctx.tmpdir, "c17-auto.bin")
+                    kw = {op["kind"]: (op["value"] * abs(cfg["dt"]) if op["kind"] == "interval" else (op["value"] if op["kind"] == "step" else 1e9))}
+                    A.save_to_file(ap, delete_file=True, **kw)
+                    probe("source_has_automatic_archive")
+                    continue
                 OPS.apply(rebound, rb, A, cfg, op)
             except (rebound.Escape, rebound.NoParticles, rebound.Encounter, rebound.Collision, rebound.GenericError, RuntimeError, AttributeError, ValueError):
                 return result()
